@@ -107,10 +107,10 @@ func (v Variant) String() string {
 }
 
 type Case struct {
-	Cfg      Config `json:"cfg"`
-	Scenario string        `json:"scenario"`
-	Variant  Variant    `json:"variant"`
-	Fault    Fault      `json:"fault"`
+	Cfg      Config  `json:"cfg"`
+	Scenario string  `json:"scenario"`
+	Variant  Variant `json:"variant"`
+	Fault    Fault   `json:"fault"`
 }
 
 func (c Case) String() string {
@@ -148,19 +148,19 @@ type Vio struct {
 }
 
 type Result struct {
-	Case     Case        `json:"case"`
-	OutStage string         `json:"out_stage"` // where the outbound upgrade stopped ("ok" = upgraded)
-	InStage  string         `json:"in_stage"`  // furthest milestone of the inbound side
-	Post     string         `json:"post"`      // what happened on the upgraded connection
-	OutErr   string         `json:"out_err,omitempty"`
-	Ops      [2]int         `json:"ops"`   // raw I/O calls seen on the out / in end of the first pair
-	Kinds    [2]string      `json:"kinds"` // their kinds (R/W)
+	Case     Case              `json:"case"`
+	OutStage string            `json:"out_stage"` // where the outbound upgrade stopped ("ok" = upgraded)
+	InStage  string            `json:"in_stage"`  // furthest milestone of the inbound side
+	Post     string            `json:"post"`      // what happened on the upgraded connection
+	OutErr   string            `json:"out_err,omitempty"`
+	Ops      [2]int            `json:"ops"`   // raw I/O calls seen on the out / in end of the first pair
+	Kinds    [2]string         `json:"kinds"` // their kinds (R/W)
 	RcCalls  [2]map[string]int `json:"rcmgr_calls"`
 	GaCalls  [2]map[string]int `json:"gater_calls"`
-	Fired    bool           `json:"fault_fired"`
-	Vios     []Vio       `json:"violations,omitempty"`
-	Infra    string         `json:"infra,omitempty"` // harness-level problem: no verdict
-	Trace    []string       `json:"trace,omitempty"`
+	Fired    bool              `json:"fault_fired"`
+	Vios     []Vio             `json:"violations,omitempty"`
+	Infra    string            `json:"infra,omitempty"` // harness-level problem: no verdict
+	Trace    []string          `json:"trace,omitempty"`
 }
 
 func (r *Result) class() string {
@@ -187,11 +187,11 @@ type StubTransport struct{}
 func (StubTransport) Dial(context.Context, ma.Multiaddr, peer.ID) (transport.CapableConn, error) {
 	return nil, errors.New("stub")
 }
-func (StubTransport) CanDial(ma.Multiaddr) bool                         { return false }
-func (StubTransport) Listen(ma.Multiaddr) (transport.Listener, error)   { return nil, errors.New("stub") }
-func (StubTransport) Protocols() []int                                  { return []int{ma.P_TCP} }
-func (StubTransport) Proxy() bool                                       { return false }
-func (StubTransport) String() string                                    { return "memtpt" }
+func (StubTransport) CanDial(ma.Multiaddr) bool                       { return false }
+func (StubTransport) Listen(ma.Multiaddr) (transport.Listener, error) { return nil, errors.New("stub") }
+func (StubTransport) Protocols() []int                                { return []int{ma.P_TCP} }
+func (StubTransport) Proxy() bool                                     { return false }
+func (StubTransport) String() string                                  { return "memtpt" }
 
 // ---------- one run ----------
 
